@@ -8,6 +8,7 @@ License, v. 2.0. If a copy of the MPL was not distributed with this file,
 You can obtain one at http://mozilla.org/MPL/2.0/.
 */
 #include <iostream>
+#include <list>
 #include <map>
 
 #include "libfive/tree/archive.hpp"
@@ -53,6 +54,10 @@ public:
     static const uint8_t END_OF_ITEM;
 
 protected:
+    /*  Flattened versions of the shapes' trees, kept alive because ids
+     *  refers to their nodes by address.  */
+    std::list<Tree> flattened;
+
     /*
      *  Serialize a Tree and all of its dependencies.
      *  Modifies the ids map to store where each subtree has been serialized.
